@@ -167,6 +167,7 @@ class ConnRec:
         self.server_eof_at: Optional[float] = None
         self.closed_at: Optional[float] = None  # server closed / aborted its side
         self.lost_at: Optional[float] = None  # peer loss (reset / write failure) seen by transport
+        self.lost_seq: Optional[int] = None  # logical-clock stamp of that loss
         self.client_eof = False
         self.client_reset = False
         self.opened_at: float = 0.0
